@@ -218,6 +218,12 @@ def gen(rng, tier):
             k, inp = b"\xff" * 32, b"\xff" * 16
         cs.append(Case("hsalsa20 %s %s" % (hx(k), hx(inp)), cls="hsalsa20"))
         cs.append(Case("hsalsa20 %s %s %s" % (hx(k), hx(inp), hx(rbytes(rng, 16))), cls="hsalsa20/const"))
+        if i < 12:
+            # explicit constant blocks that a "no constants given" sentinel could be confused with: all-zero, the standard sigma, single
+            # non-zero words, all ones
+            for cst in (bytes(16), b"expand 32-byte k", bytes(4) + b"\x01" + bytes(11), b"\x01" + bytes(15), bytes(12) + b"\x00\x00\x00\x80", b"\xff" * 16):
+                cs.append(Case("hsalsa20 %s %s %s" % (hx(k), hx(inp), hx(cst)), cls="hsalsa20/const-degenerate"))
+                cs.append(Case("hchacha20 %s %s %s" % (hx(k), hx(inp), hx(cst)), cls="hchacha20/const-degenerate"))
         cs.append(Case("hchacha20 %s %s" % (hx(k), hx(inp)), cls="hchacha20"))
     return cs
 
